@@ -1,12 +1,91 @@
 /-
-  Proofs/C06.lean — position events and the trade log (theorems over the accounts / engine model).
+  Proofs/C06.lean — position events and the trade log are a faithful record of the fills
+  (theorems over the accounts model; helper lemmas in Proofs/Lemmas/TradeLog.lean).
+  PROPERTY THEOREMS ONLY.
 -/
-import Jesse.Engine
+import Proofs.Lemmas.TradeLog
 
 namespace C06
-open Jesse Jesse.Eng
+open Jesse Jesse.Acc Jesse.Gen TradeLogLemmas
 
-/-- placeholder (trade-log theorems follow) -/
-theorem fmt_none : fmt none = [] := rfl
+/-- ONE FILL (futures, one symbol): executing a legal order on a well-formed world
+    * keeps the world well-formed (position size = recorded buys − recorded sells, a flat position has
+      an empty running trade, an open one has a running trade of the position's side),
+    * appends the order to the running trade's order list and its (|qty|, price) row to the buy or sell rows,
+    * produces EXACTLY ONE closed trade — the running one, with this order as its last — when the fill
+      brings the position to zero, and none otherwise,
+    * leaves the ledger  wallet − Σ net PnL of closed trades − open-cycle term  unchanged. -/
+theorem fill_step (w : World) (p : Pos) (t : Trade) (id : Nat) (o : Order) (hI : Inv w p t) (hL : Legal p o)
+    (ho : w.orders[id]? = some o) (ha : o.status = .active) :
+    ∃ p' t', Inv (execute w id) p' t'
+      ∧ ledger (execute w id) = ledger w
+      ∧ p'.qty = p.qty + o.qty
+      ∧ (execute w id).trades = (if p.qty + o.qty = 0 then w.trades ++ [recorded t o] else w.trades)
+      ∧ (p.qty + o.qty ≠ 0 → t'.orders = t.orders ++ [o.id] ∧ t'.buys = (recorded t o).buys ∧ t'.sells = (recorded t o).sells) :=
+  fill_step_main w p t id o hI hL ho ha
+
+/-- EVERY HISTORY: after any sequence of legal fills (each order legal against the position it meets)
+    the world is still well-formed and the ledger is what it was at the start. -/
+theorem history_ledger (w : World) (p : Pos) (t : Trade) (hI : Inv w p t) (ids : List Nat)
+    (hlegal : LegalRun w ids) :
+    ∃ p' t', Inv (ids.foldl execute w) p' t' ∧ ledger (ids.foldl execute w) = ledger w :=
+  history_main w p t hI ids hlegal
+
+/-- NET PROFIT = WALLET CHANGE: start flat with nothing recorded, apply any legal history; whenever the
+    position is flat again, the wallet has changed by exactly the sum of the net PnL (profit minus
+    fees) of the closed trades produced since — so `net_profit` and `finishing_balance` agree. -/
+theorem net_pnl_equals_wallet_change (w : World) (p : Pos) (hI : Inv w p {}) (hflat : p.qty = 0) (ids : List Nat)
+    (hlegal : LegalRun w ids) (p' : Pos) (t' : Trade) (hI' : Inv (ids.foldl execute w) p' t') (hflat' : p'.qty = 0) :
+    (ids.foldl execute w).wallet - w.wallet = closedPnl (ids.foldl execute w) - closedPnl w :=
+  net_pnl_main w p hI hflat ids hlegal p' t' hI' hflat'
+
+/-- A CLOSED TRADE'S PnL IS THAT OF ITS FILLS: for a trade whose buy and sell quantities match (what
+    `fill_step` guarantees at the closing fill), `ClosedTrade.pnl` — computed from the quantity-weighted
+    entry and exit prices — equals sells' notional − buys' notional − fee × (both notionals). -/
+theorem closed_trade_pnl (fee : Rat) (t : Trade) (ty : PosType) (hty : t.type = some ty) (hne : ty ≠ .close)
+    (hq : qtySum t.buys = qtySum t.sells) (hpos : 0 < qtySum t.buys) :
+    Trade.pnl fee t = notional t.sells - notional t.buys - fee * (notional t.buys + notional t.sells) :=
+  closed_pnl_main fee t ty hty hne hq hpos
+
+end C06
+
+namespace C06
+open Jesse Jesse.Acc Jesse.Gen TradeLogLemmas
+
+/-! ### non-vacuity: buy 2 @ 100, take profit 1 @ 110, stop 1 @ 90 (fee 0.1 %) -/
+
+def ok (r : Except (Err × World) World) : World := match r with | .ok w => w | .error (_, w) => w
+
+def demo : World :=
+  let w0 := Acc.init .futures 10000 (1/1000) 1 1
+  let w1 := ok (Acc.submit w0 0 .buy .limit 2 100 false)
+  let w2 := ok (Acc.submit w1 0 .sell .limit 1 110 true)
+  ok (Acc.submit w2 0 .sell .stop 1 90 true)
+
+example : Inv demo {} {} := by
+  constructor
+  · decide +kernel
+  · decide +kernel
+  · decide +kernel
+  · decide +kernel
+  · intro _; exact ⟨rfl, rfl⟩
+  · intro h; exact absurd rfl h
+  · intro r hr; cases hr
+  · intro r hr; cases hr
+
+/-- the three fills are a legal run: open, reduce, close -/
+example : LegalRun demo [0, 1, 2] := by
+  refine ⟨⟨⟨0, 0, .buy, .limit, 2, 100, false, .active⟩, by decide +kernel, by decide +kernel, ?_⟩,
+          ⟨⟨1, 0, .sell, .limit, -1, 110, true, .active⟩, by decide +kernel, by decide +kernel, ?_⟩,
+          ⟨⟨2, 0, .sell, .stop, -1, 90, true, .active⟩, by decide +kernel, by decide +kernel, ?_⟩, trivial⟩
+  all_goals (constructor <;> decide +kernel)
+
+/-- one closed trade (orders 0, 1, 2), flat again, and the wallet moved by exactly its net PnL:
+    110 + 90 − 200 − 0.1 % × (200 + 200) = −0.4 -/
+example : ([0, 1, 2].foldl execute demo).trades.map (·.orders) = [[0, 1, 2]]
+    ∧ (getD ([0, 1, 2].foldl execute demo).pos 0).qty = 0
+    ∧ ([0, 1, 2].foldl execute demo).wallet - demo.wallet = -2/5
+    ∧ closedPnl ([0, 1, 2].foldl execute demo) - closedPnl demo = -2/5 := by
+  decide +kernel
 
 end C06
